@@ -165,7 +165,7 @@ def dispatch(u):
 
 
 def _fp_policy_unit(cls, label):
-    @unit(f"C16.{label}.update.float64", ["C16"], [PEN + ("PenaltyFilter" if "Filter" in cls else cls) + ".update"], config={"max_paths": 50})
+    @unit(f"C16.{label}.update.float64", ["C16"], [PEN + ("PenaltyFilter" if "Filter" in cls else cls) + ".update"], config={"max_paths": 50, "timeout_ms": 120000})
     def fp_unit(u):
         """the monotonicity post-condition re-posed in IEEE double arithmetic (finite positive rho, non-NaN norms)"""
         from pyvc import ops as _ops
